@@ -350,7 +350,7 @@ class MTCoherenceAnalyzer(BaseAnalyzer):
         coh_mat = np.zeros((nrows, nrows, self._L), 'd')
 
         for i in range(self.input.data.shape[0]):
-            for j in range(i):
+            for j in range(i + 1):
                 sxy = tsa.mtm_cross_spectrum(self.spectra[i], self.spectra[j],
                                            (self.weights[i], self.weights[j]),
                                            sides='onesided')
